@@ -111,6 +111,15 @@ where
         let (fri_layer_queries, fri_layer_proofs) = fri_proof
             .parse_layers::<E, H, V>(lde_domain_size, fri_options.folding_factor())
             .map_err(|err| VerifierError::ProofDeserializationError(err.to_string()))?;
+        // the FRI verifier takes one set of queries per layer; make sure they are all there
+        let num_fri_layers = fri_options.num_fri_layers(lde_domain_size);
+        if fri_layer_queries.len() != num_fri_layers {
+            return Err(VerifierError::ProofDeserializationError(format!(
+                "expected {} FRI layers, but the proof contains {}",
+                num_fri_layers,
+                fri_layer_queries.len()
+            )));
+        }
 
         // --- parse out-of-domain evaluation frame -----------------------------------------------
         let (ood_trace_frame, ood_constraint_evaluations) = ood_frame
